@@ -8,7 +8,7 @@ import json
 from . import cases as casemod
 from . import replay, tlc
 
-MODULE_CONSTS = {"Trace_Obs": {"MCMode": "off", "OptNames": "{}", "MBLayouts": "{}", "MBRecs": "{}"}}
+MODULE_CONSTS = {"Trace_Obs": {"MCMode": "off", "OptNames": "{}", "MBLayouts": "{}", "MBRecs": "{}", "IOReqs": "{}", "IOShape": "{}"}}
 ALL = replay.ALL_ACTS
 NO_INDEX = [a for a in ALL if a != "Index"]
 
@@ -89,6 +89,9 @@ CORPORA = {
     "d2-inplace2-all": dict(acts=INPLACE_ACTS, maxlen=2, preset="lean2", sim=False, lean=True, workers=8, observe_all=True),
     "d2-inplace2": dict(acts=INPLACE_ACTS, maxlen=2, preset="lean2", sim=False, lean=True, workers=8),
     "d2-inplace3": dict(acts=INPLACE_ACTS, maxlen=2, preset="lean3", sim=False, lean=True, workers=8),
+    "d2-sr2": dict(acts=["Index", "Rechunk"], maxlen=2, preset="lean2", sim=False, lean=True, workers=4, observe_all=True),
+    "d2-sr3": dict(acts=["Index", "Rechunk"], maxlen=2, preset="lean3", sim=False, lean=True, workers=4, observe_all=True),
+    "d3-sr1-all": dict(acts=["Index", "Rechunk"], maxlen=3, preset="lean1", sim=False, lean=True, workers=4, observe_all=True),
     # slice / rechunk chains (what gets composed and pushed into sources)
     "d3-sr1": dict(acts=["Index", "Rechunk"], maxlen=3, preset="lean1", sim=False, lean=True, workers=4),
 }
@@ -102,6 +105,32 @@ def standard_plans(tier, light=1):
                 ("d3-sr1", 1, 8), ("d2-lean1", 1, 4 * light), ("d2-lean2", 1, 12 * light), ("d2-lean3", 1, 16 * light)]
     return [("d1-1d-wide", 6, 1), ("d1-2d", 6, 1), ("d2-lean1", 3, 1), ("d2-lean2", 2, 1), ("d2-lean3", 2, 1), ("d3-sr1", 2, 1),
             ("d3-chain1", 1, 2)]
+
+
+class SubCheck:
+    """A view of a Check that labels everything it records with a part name (one check, several source kinds / configurations)."""
+
+    def __init__(self, chk, label):
+        self._chk = chk
+        self._label = label
+
+    def __getattr__(self, name):
+        return getattr(self._chk, name)
+
+    def part(self, name, **kv):
+        self._chk.part(f"{self._label}/{name}", **kv)
+
+    def add_tlc(self, res, part=None):
+        self._chk.add_tlc(res, f"{self._label}/{part}" if part else None)
+
+    def violation(self, case, clause, matcher_ctx=None):
+        return self._chk.violation(dict(case, part=self._label), clause, matcher_ctx)
+
+    def nontrivial(self, key):
+        self._chk.nontrivial((self._label, key))
+
+    def sample(self, s, limit=6):
+        self._chk.sample(dict(s, part=self._label) if isinstance(s, dict) else s, limit)
 
 
 def stride_sample(behs, stride, offset=0):
